@@ -398,6 +398,71 @@ std::vector<TrafficCfg> make_traffic(bool thorough)
 	return v;
 }
 
+// ---------------------------------------------------------------------------------------------
+// third family (C09): end-to-end delays from a multi-homed node whose two addresses have different uplinks.
+// All queues are infinitely fast, so the UDP one-way delay and the TCP connect round trip must equal the sums of
+// the latencies along the route of the address actually used - also when one socket object is re-bound from one
+// address to the other, or moved first.
+// ---------------------------------------------------------------------------------------------
+struct E2eCfg { int first; /*0 slow uplink first*/ int reuse; /*0 same object re-bound, 1 moved then re-bound, 2 fresh object per address*/ int proto; /*0 udp, 1 tcp connect*/ };
+std::string e2e_str(E2eCfg const& c) { return fmt("two-uplink node (10.0.0.5: 50 ms, 60.0.0.1: 2 ms): %s first, %s, %s", c.first == 0 ? "slow uplink" : "fast uplink", c.reuse == 0 ? "same socket object re-bound" : c.reuse == 1 ? "socket moved, then re-bound" : "fresh socket per address", c.proto == 0 ? "UDP one-way delay" : "TCP connect round trip"); }
+
+struct E2eRes { std::vector<std::string> fails; std::string trace; };
+E2eRes run_e2e(E2eCfg const& ec)
+{
+	E2eRes R; auto fail = [&](std::string const& x) { R.fails.push_back(x); };
+	World w;
+	int64_t const UP_SLOW = 50 * 1000000ll, UP_FAST = 2 * 1000000ll, NET = 5 * 1000000ll, IN_S = 1 * 1000000ll, OUT_S = 3 * 1000000ll, IN_M = 4 * 1000000ll;
+	w.on_build = [&](World& ww, sim::simulation&) {
+		auto net = ww.queue(0, ns(NET), 0); ww.chan = [net](ip::address, ip::address) { return World::hops_t{ net }; };
+		ww.out[addr("10.0.0.5")] = World::hops_t{ ww.queue(0, ns(UP_SLOW), 0) }; ww.out[addr("60.0.0.1")] = World::hops_t{ ww.queue(0, ns(UP_FAST), 0) };
+		ww.in[addr("10.0.0.5")] = World::hops_t{ ww.queue(0, ns(IN_M), 0) }; ww.in[addr("60.0.0.1")] = World::hops_t{ ww.queue(0, ns(IN_M), 0) };
+		ww.out[addr("10.0.1.1")] = World::hops_t{ ww.queue(0, ns(OUT_S), 0) }; ww.in[addr("10.0.1.1")] = World::hops_t{ ww.queue(0, ns(IN_S), 0) };
+	};
+	sim::simulation sim(w);
+	asio::io_context nM(sim, std::vector<ip::address>{ addr("10.0.0.5"), addr("60.0.0.1") }), nS(sim, addr("10.0.1.1"));
+	const char* A[2] = { ec.first == 0 ? "10.0.0.5" : "60.0.0.1", ec.first == 0 ? "60.0.0.1" : "10.0.0.5" };
+	auto up = [&](const char* a) { return std::string(a) == "10.0.0.5" ? UP_SLOW : UP_FAST; };
+	if (ec.proto == 0) {
+		ip::udp::socket rx(nS); rx.open(ip::udp::v4()); rx.bind(ip::udp::endpoint(addr("10.0.1.1"), 5000));
+		std::vector<char> rb(100); ip::udp::endpoint from; int64_t arrived = -1; std::function<void()> rd;
+		rd = [&]() { rx.async_receive_from(asio::buffer(rb), from, [&](error_code const& e, std::size_t) { if (e) return; arrived = now_ns(); rd(); }); }; rd();
+		std::unique_ptr<ip::udp::socket> tx(new ip::udp::socket(nM));
+		for (int round = 0; round < 3; ++round) {
+			const char* a = A[round % 2];
+			if (round > 0) { if (ec.reuse == 2) tx.reset(new ip::udp::socket(nM)); else { if (ec.reuse == 1 && round == 1) { std::unique_ptr<ip::udp::socket> m2(new ip::udp::socket(std::move(*tx))); tx = std::move(m2); } error_code ig; tx->close(ig); } }
+			tx->open(ip::udp::v4()); tx->bind(ip::udp::endpoint(addr(a), (unsigned short)(4000 + round))); tx->non_blocking(true);
+			int64_t t0 = now_ns(); arrived = -1; error_code e; tx->send_to(asio::buffer("x", 1), ip::udp::endpoint(addr("10.0.1.1"), 5000), 0, e);
+			sim.run();
+			int64_t want = up(a) + NET + IN_S;
+			R.trace += fmt("datagram %d from %s: %lld ns (route sum %lld) ; ", round, a, (long long)(arrived - t0), (long long)want);
+			if (arrived < 0) fail(fmt("e2e: datagram %d from %s was not delivered", round, a));
+			else if (arrived - t0 != want) fail(fmt("e2e: the datagram sent from %s took %lld ns; the latencies along its route (uplink of that address, network, receiver) add up to %lld ns%s", a, (long long)(arrived - t0), (long long)want, arrived - t0 < want ? " - it arrived sooner than the route allows" : ""));
+		}
+		error_code ig; rx.cancel(ig); sim.run();
+	} else {
+		ip::tcp::acceptor acc(nS); acc.open(ip::tcp::v4()); acc.bind(ip::tcp::endpoint(addr("10.0.1.1"), 6000)); acc.listen();
+		std::unique_ptr<ip::tcp::socket> c(new ip::tcp::socket(nM));
+		for (int round = 0; round < 3; ++round) {
+			const char* a = A[round % 2];
+			if (round > 0) { if (ec.reuse == 2) c.reset(new ip::tcp::socket(nM)); else { error_code ig; c->close(ig); if (ec.reuse == 1 && round == 1) { std::unique_ptr<ip::tcp::socket> m2(new ip::tcp::socket(std::move(*c))); c = std::move(m2); } } }
+			c->open(ip::tcp::v4()); c->bind(ip::tcp::endpoint(addr(a), (unsigned short)(4000 + round)));
+			ip::tcp::socket srv(nS); int64_t t0 = now_ns(), t_conn = -1, t_acc = -1;
+			acc.async_accept(srv, [&](error_code const& e) { if (!e) t_acc = now_ns(); });
+			c->async_connect(ip::tcp::endpoint(addr("10.0.1.1"), 6000), [&](error_code const& e) { if (!e) t_conn = now_ns(); });
+			sim.run();
+			int64_t want_syn = up(a) + NET + IN_S, want_rtt = want_syn + OUT_S + NET + IN_M;
+			R.trace += fmt("connect %d from %s: accept after %lld (route sum %lld), connect after %lld (round trip %lld) ; ", round, a, (long long)(t_acc - t0), (long long)want_syn, (long long)(t_conn - t0), (long long)want_rtt);
+			if (t_conn < 0 || t_acc < 0) fail(fmt("e2e: connection %d from %s was not established", round, a));
+			else { if (t_acc - t0 != want_syn) fail(fmt("e2e: the SYN sent from %s reached the acceptor after %lld ns, the route adds up to %lld ns", a, (long long)(t_acc - t0), (long long)want_syn));
+				if (t_conn - t0 != want_rtt) fail(fmt("e2e: the connect from %s completed after %lld ns, the round trip along its routes adds up to %lld ns", a, (long long)(t_conn - t0), (long long)want_rtt)); }
+			error_code ig; srv.close(ig); sim.run();
+		}
+		error_code ig; c->close(ig); acc.close(ig); sim.run();
+	}
+	return R;
+}
+
 std::string route_str(Route const& r)
 {
 	std::string s;
@@ -408,14 +473,15 @@ std::string route_str(Route const& r)
 
 struct QueueEngine : Engine
 {
-	std::vector<Route> routes; int L = 3, NK = 5; bool want09 = true, want10 = true; std::vector<TrafficCfg> traffic;
+	std::vector<Route> routes; int L = 3, NK = 5; bool want09 = true, want10 = true; std::vector<TrafficCfg> traffic; std::vector<E2eCfg> e2e;
 	uint64_t units(Args const& a) override
 	{
 		routes = make_routes(a.thorough());
 		L = a.thorough() ? 4 : 3; NK = 7; // every packet kind may come first; longer sequences use the first five kinds (see kind_limit)
 		want09 = a.property != "C10"; want10 = a.property != "C09";
 		traffic = make_traffic(a.thorough());
-		return routes.size() * uint64_t(NK) + traffic.size(); // unit = (route, kind of first packet), then one unit per traffic scenario
+		e2e.clear(); if (want09) for (int f = 0; f < 2; ++f) for (int r = 0; r < 3; ++r) for (int p = 0; p < 2; ++p) e2e.push_back(E2eCfg{ f, r, p });
+		return routes.size() * uint64_t(NK) + traffic.size() + e2e.size(); // unit = (route, kind of first packet), then one unit per traffic scenario
 	}
 	std::vector<int64_t> gap_menu(Route const& r, int prev_kind)
 	{
@@ -435,6 +501,14 @@ struct QueueEngine : Engine
 	}
 	void run_unit(uint64_t u, Ctx& ctx) override
 	{
+		if (u >= routes.size() * uint64_t(NK) + traffic.size()) {
+			size_t i = size_t(u - routes.size() * uint64_t(NK) - traffic.size());
+			if (!ctx.next_case()) return;
+			Case c; c.set("e2e", (long long)i); ctx.begin(c);
+			E2eRes r = run_e2e(e2e[i]); ctx.outcome(r.trace); ctx.R.counters["end_to_end_scenarios"]++; ctx.R.transitions += 3;
+			for (auto& f : r.fails) add_violation(ctx, "e2e", c, e2e_str(e2e[i]) + ": " + f + " | " + r.trace, "e2e");
+			ctx.end(); return;
+		}
 		if (u >= routes.size() * uint64_t(NK)) { traffic_unit(size_t(u - routes.size() * uint64_t(NK)), ctx); return; }
 		ctx.watchdog_s = 2;
 		size_t ri = size_t(u / uint64_t(NK)); int k0 = int(u % uint64_t(NK));
@@ -503,6 +577,13 @@ struct QueueEngine : Engine
 	}
 	int replay(Case const& c, Args const& a) override
 	{
+		if (c.has("e2e")) {
+			units(a); E2eCfg const& ec = e2e.at(size_t(c.num("e2e"))); E2eRes r = run_e2e(ec);
+			std::fprintf(stdout, "%s\n%s\n", e2e_str(ec).c_str(), r.trace.c_str());
+			for (auto& f : r.fails) std::fprintf(stdout, "VIOLATION %s\n", f.c_str());
+			std::fprintf(stdout, r.fails.empty() ? "=> ok\n" : "=> %zu violation(s)\n", r.fails.size());
+			return r.fails.empty() ? 0 : 1;
+		}
 		if (c.has("traffic")) {
 			Args a2 = a; a2.tier = c.num("thorough") ? "thorough" : "quick"; units(a2);
 			TrafficCfg const& tc = traffic.at(size_t(c.num("traffic")));
